@@ -73,8 +73,12 @@ for _k, _v in THEOREMS_V1_FOR.items():
     THEOREMS_FOR[_k] = THEOREMS_FOR[_k] + _v
 LEAN_MODULES = LEAN_MODULES + V1_MODULES
 # ---- zlib framing: lean/EngineModel/Gen/ZlibGen.lean (tools/tr_zlib.py), design/zlibgen.md
-ZLIB_MODULES = ["Proofs.ZlibGenEq", "Properties.C05ZlibGen"]
+ZLIB_MODULES = ["Proofs.ZlibGenEq", "Properties.C05ZlibGen", "Proofs.ZlibGenCompressEq", "Properties.C03ZlibGen"]
 THEOREMS_ZLIB_FOR = {
+    "C03": ["EngineModel.Gen.Zlib.compress_eq_partial"] +
+           ["EngineModel.Properties.C03ZlibGen." + t for t in
+            ["C03_gen_compress_eq_partial", "C03_gen_compress_complete", "C03_gen_compress_empty_ub",
+             "C03_gen_compress_chunk_schedule_partial", "C03_gen_compress_finish_only_last_partial"]],
     "C05": ["EngineModel.Gen.Zlib.uncompress_eq_partial"] +
            ["EngineModel.Properties.C05ZlibGen." + t for t in
             ["C05_gen_uncompress_eq_partial", "C05_gen_uncompress_total", "C05_gen_uncompress_no_ub"]],
